@@ -465,12 +465,14 @@ class LiveRun(object):
         reqs = {"restart": [("restart", {"name": w, "waiting": True})],
                 "reload": [("reload", {"name": w, "waiting": True})],
                 "stopstart": [("stop", {"name": w, "waiting": True}), ("start", {"name": w, "waiting": True})],
+                "rcfg": [("reloadconfig", {"waiting": True})],
                 "incr": [("incr", {"name": w, "nb": 1, "waiting": True})],
                 "decr": [("decr", {"name": w, "nb": 1, "waiting": True})]}[kind]
         for cmd, props in reqs:
             rep = self.ctl.call(cmd, deadline, alive, **props)
             self.raw[-1].setdefault("actions", []).append("%s %s -> %s" % (cmd, props, rep.get("status")))
-            if rep.get("status") != "ok":
+            if rep.get("status") != "ok" and kind != "rcfg":     # (a failing reloadconfig is the code's business: the
+                #  observation that follows is judged all the same)
                 return "%s %s answered %s %s" % (cmd, props, rep.get("status"), str(rep.get("reason"))[:200])
         return None
 
